@@ -160,6 +160,131 @@ type backend struct {
 	mu    sync.Mutex
 	db    *chsim.DB
 	stmts []stmtRec
+	ver   VerCfg
+	win   Win
+}
+
+// ---- schema-version information (reader/utils/dbVersion) ------------------------------------
+//
+// dbVersion.GetVersionInfo reads, once per database NAME (cached; the cache is dropped 10 s
+// after a fill), the `settings` rows of type 'update' (feature name -> unix time of the
+// upgrade) and SHOW TABLES (no metrics_15s table -> "v5" = 0). Planners ask
+// IsVersionSupported(feature, from, to) = present && from >= upgradeTime and choose other
+// statement shapes / bounds when it is false (reader/tempo/sqlIndexQuery.go: the tag index is
+// bounded by timestamp only when tempo_v2 covers the window, otherwise by date alone - then
+// the bounds on tempo_traces are the only thing that confines the read). Every reader is
+// built over a fresh fakesql database (unique name), so no case sees another case's cache.
+
+// Feature classes.
+const (
+	verLongAgo = 0 // upgraded at unix time 1 (the zero value: old replay files mean this)
+	verAbsent  = 1 // no settings row (note: the pinned ctrl scripts never write tempo_v2)
+	verBefore  = 2 // upgraded one day before the window starts
+	verMid     = 3 // upgraded in the middle of the window
+	verAfter   = 4 // upgraded one hour after the window ends
+)
+
+var verClassNames = []string{"long-ago", "absent", "before-window", "mid-window", "after-window"}
+
+// verFeatures: every feature name the schema scripts write or the reader asks for.
+var verFeatures = []string{"v3_1", "v3_2", "tempo_traces_v1", "tempo_traces_v2", "profiles_v1", "profiles_v2", "v5", "tempo_v2", "v1", "v3", "v4"}
+
+// VerCfg is the generated schema-version configuration of a case.
+type VerCfg struct {
+	Feat  map[string]int `json:"feat,omitempty"` // feature -> class; missing = long ago
+	NoM15 bool           `json:"no_m15,omitempty"` // SHOW TABLES does not list metrics_15s[_dist]
+}
+
+func genVer(rt *rapid.T) VerCfg {
+	v := VerCfg{}
+	if rapid.IntRange(0, 3).Draw(rt, "verDefault") == 0 {
+		return v // every feature long ago
+	}
+	v.Feat = map[string]int{}
+	for _, f := range verFeatures {
+		// the features a planner actually branches on get every class with equal weight
+		var cl int
+		if f == "tempo_v2" || f == "v5" {
+			cl = rapid.IntRange(0, 4).Draw(rt, "ver:"+f)
+		} else if rapid.IntRange(0, 2).Draw(rt, "verVary:"+f) == 0 {
+			cl = rapid.IntRange(0, 4).Draw(rt, "ver:"+f)
+		}
+		if cl != verLongAgo {
+			v.Feat[f] = cl
+		}
+	}
+	v.NoM15 = rapid.IntRange(0, 3).Draw(rt, "noM15") == 0
+	return v
+}
+
+func (v VerCfg) class(f string) int { return v.Feat[f] }
+
+// upgradeTime is the unix time (seconds) stored for feature f; ok=false: no row.
+func (v VerCfg) upgradeTime(f string, w Win) (int64, bool) {
+	switch v.class(f) {
+	case verAbsent:
+		return 0, false
+	case verBefore:
+		return (w.From - nsDay) / nsSec, true
+	case verMid:
+		return (w.From + (w.To-w.From)/2) / nsSec, true
+	case verAfter:
+		return w.To/nsSec + 3600, true
+	}
+	return 1, true
+}
+
+// covers mirrors what the reader will conclude (dbVersion.IsVersionSupported): only used to
+// pick the admissible bounds of index scans and for tags, never as an oracle of results.
+func (v VerCfg) covers(f string, w Win) bool {
+	t, ok := v.upgradeTime(f, w)
+	return ok && w.From >= t*nsSec
+}
+
+func (v VerCfg) tags(w Win, feats ...string) []string {
+	out := []string{}
+	nd := false
+	for _, f := range verFeatures {
+		if v.class(f) != verLongAgo {
+			nd = true
+		}
+	}
+	if nd || v.NoM15 {
+		out = append(out, "ver:some-feature-not-long-ago")
+	} else {
+		out = append(out, "ver:all-long-ago")
+	}
+	for _, f := range feats {
+		out = append(out, "ver:"+f+":"+verClassNames[v.class(f)])
+	}
+	if v.NoM15 {
+		out = append(out, "ver:show-tables-without-metrics_15s")
+	}
+	return out
+}
+
+func (b *backend) answerVersion(q string) *fakesql.Result {
+	if strings.HasPrefix(strings.TrimSpace(q), "SHOW TABLES") {
+		res := fakesql.AnswerVersion(q)
+		if b.ver.NoM15 {
+			var rows [][]any
+			for _, r := range res.Rows {
+				if n, _ := r[0].(string); n == "metrics_15s" || n == "metrics_15s_dist" {
+					continue
+				}
+				rows = append(rows, r)
+			}
+			res.Rows = rows
+		}
+		return res
+	}
+	res := &fakesql.Result{Cols: []string{"_name", "_value"}, FailAfter: -1}
+	for _, f := range verFeatures {
+		if t, ok := b.ver.upgradeTime(f, b.win); ok {
+			res.Rows = append(res.Rows, []any{f, fmt.Sprint(t)})
+		}
+	}
+	return res
 }
 
 func nativeCell(v any) any {
@@ -220,7 +345,7 @@ func nativeCell(v any) any {
 
 func (b *backend) handle(ctx context.Context, q string, args []driver.NamedValue) (*fakesql.Result, error) {
 	if fakesql.IsVersionQuery(q) {
-		return fakesql.AnswerVersion(q), nil
+		return b.answerVersion(q), nil
 	}
 	res, err := b.db.Query(q)
 	b.mu.Lock()
@@ -275,8 +400,8 @@ func dbCfg(cluster bool) *clcfg.ClokiBaseDataBase {
 }
 
 // newReader assembles the real reader over db.
-func newReader(db *chsim.DB, cluster bool) (*readersvc.Reader, *backend) {
-	b := &backend{db: db}
+func newReader(db *chsim.DB, cluster bool, ver VerCfg, w Win) (*readersvc.Reader, *backend) {
+	b := &backend{db: db, ver: ver, win: w}
 	return readersvc.NewReaderCfg(b.handle, dbCfg(cluster)), b
 }
 
